@@ -241,7 +241,7 @@ TEXT = {
               "referenced many times up to 64 KiB; all pointer graphs over 3 slots x 13 targets; seeded random byte "
               "strings of 0..65535 bytes and random mutations; buffers of 0..14 bytes for the peek functions. TLC "
               "judges each event in the trace specification: outcome is a value or an error (NoPanic), steps <= "
-              "64n+1024 (NoHang), peak heap <= 2048n+65536 (HeapBound), peek results equal Header.tla's fields or are "
+              "64n+1024 (NoHang), peak heap <= 1024n+65536 (HeapBound), peek results equal Header.tla's fields or are "
               "errors (PeekTotal). The name-parsing loop is additionally model-checked (MC_NameWire) to terminate with "
               "a decreasing variant and never read out of bounds. Absence of panics is established by observation on "
               "the generated inputs, not by proof."),
